@@ -594,3 +594,19 @@ Proof.
     { apply maxl_in. destruct fs; [congruence|discriminate]. }
     apply in_map_iff in H1 as (f & E & Hin). exists f. auto.
 Qed.
+
+(* ---- no wrap-around in liveness: once a source has timed out it stays out, however long ---- *)
+Lemma timeout_monotone now now' s : now <= now' -> liveb now s = false -> liveb now' s = false.
+Proof.
+  unfold liveb. intros Hle H.
+  destruct (negb (s_ts s =? 0)); cbn [andb] in *; [|reflexivity].
+  destruct (match s_data s with [] => false | _ => true end); rewrite ?andb_true_r, ?andb_false_r in *; [|reflexivity].
+  apply N.ltb_ge in H. apply N.ltb_ge. lia.
+Qed.
+Lemma dead_not_in_group now now' l e :
+  now <= now' -> liveb now (snd e) = false -> ~ In e (group now' l).
+Proof.
+  intros Hle Hd Hin. unfold group in Hin. apply filter_In in Hin as [_ Hin].
+  unfold in_group in Hin. apply andb_prop in Hin as [Hl _].
+  rewrite (timeout_monotone _ _ _ Hle Hd) in Hl. discriminate.
+Qed.
